@@ -50,3 +50,12 @@ Definition check_worker_paths (wp : list wp_t) (hr : list hr_t) : bool :=
                     | Some (o, (free, (calls, _))) => free && negb calls && owner_ok hr o
                     | None => false
                     end) transfer_workers.
+
+(* Server.user() drops what the previous login left on the connection: `user`, `logged` and a pending rename
+   source are deleted, the working directory is set anew (C02: no path of a previous login survives a re-login) *)
+Definition user_drops_rename_source (hs : list handler) : bool :=
+  match find_handler "user" hs with
+  | Some h => mem_s "rename_from" (h_conn_dels h) && mem_s "user" (h_conn_dels h)
+              && mem_s "current_directory" (h_conn_sets h)
+  | None => false
+  end.
